@@ -5,8 +5,10 @@ import json, hashlib, math
 def canon(v):
   """Canonical form of an *encoded* cell value (what Node receives).
   int/float compare by numeric value; bool stays distinct; NaN == NaN; -0.0 == 0.0."""
-  if v is None or isinstance(v, bool) or isinstance(v, str):
+  if v is None or isinstance(v, str):
     return v
+  if isinstance(v, bool):
+    return '#true' if v else '#false'      # Python's True == 1.0 would blur bool and number
   if isinstance(v, int):
     try:
       f = float(v)
